@@ -1674,3 +1674,27 @@ pub fn dom_attr_owner(scenario: &str) -> Outcome {
     });
     Outcome { observed, expected, note: scenario.to_string() }
 }
+
+// ------------------------------------------------------------------------------------------------
+// C13: the create_* factories of DocumentMut never panic, whatever the data
+
+pub const FACTORY_CASES: [(&str, &str); 12] = [
+    ("text", "plain"), ("text", ""), ("text", "a<b"), ("text", "a&b"), ("text", "x]]>y"),
+    ("comment", "plain"), ("comment", "a--b"), ("comment", "ends with -"),
+    ("cdata", "plain"), ("cdata", "a<b&c"), ("cdata", "x]]>y"), ("text", "\u{e9}\u{1d4b3}"),
+];
+
+pub fn dom_factory(kind: &str, data: &str) -> Outcome {
+    use xml_dom::{CharacterData, DocumentMut};
+    let observed = guard(|| {
+        let (_, doc) = xml_dom::XmlDocument::from_raw("<r/>").unwrap();
+        let got = match kind {
+            "text" => doc.create_text_node(data).data(),
+            "comment" => doc.create_comment(data).data(),
+            _ => doc.create_cdata_section(data).data(),
+        };
+        format!("a node whose data is {:?}", got.unwrap_or_else(|_| "Err".to_string()))
+    });
+    let note = if observed.starts_with("PANIC") { format!("panicked at {}", crate::LAST_PANIC_AT.lock().unwrap()) } else { String::new() };
+    Outcome { observed, expected: format!("a node whose data is {:?}", data), note }
+}
